@@ -2598,7 +2598,13 @@ impl<'a> Socket<'a> {
 
             // The rewound data cannot be sent into a closed window, so nothing below
             // would re-arm a timer: keep probing the window instead of going silent.
-            if self.remote_win_len == 0 && !self.tx_buffer.is_empty() {
+            // (A fast retransmit does not rewind: when everything queued has been sent
+            // already there is no octet for a probe to carry, and the retransmission timer
+            // below takes over.)
+            if self.remote_win_len == 0
+                && !self.tx_buffer.is_empty()
+                && self.remote_last_seq < self.local_seq_no + self.tx_buffer.len()
+            {
                 let delay = self.rtte.retransmission_timeout();
                 self.timer.set_for_zero_window_probe(cx.now(), delay);
             } else if is_fast_retransmit {
